@@ -63,6 +63,35 @@ def tm_string(sec):
     return '%02d%02d%02d.%06d' % (whole // 3600, (whole // 60) % 60, whole % 60, int(frac * 1000000))
 
 
+def tm_seconds(s):
+    """seconds past midnight of a TM string in any valid form (hh[mm[ss[.f..f]]], optional colons)"""
+    t = s.replace(':', '')
+    sec = Fraction(int(t[:2]) * 3600)
+    if len(t) > 2:
+        sec += int(t[2:4]) * 60
+    if len(t) > 4:
+        sec += Fraction(t[4:])
+    return sec
+
+
+def tm_restyle(s, style):
+    """the same time of day written in another valid TM form"""
+    f = tm_seconds(s)
+    whole = int(f)
+    frac = f - whole
+    hh, mm, ss = whole // 3600, (whole // 60) % 60, whole % 60
+    fs = ('%06d' % int(frac * 1000000)).rstrip('0')
+    if style == 'colon':
+        return '%02d:%02d:%02d' % (hh, mm, ss) + ('.' + fs if fs else '')
+    if style == 'trim':
+        if not fs and ss == 0 and mm == 0:
+            return '%02d' % hh
+        if not fs and ss == 0:
+            return '%02d%02d' % (hh, mm)
+        return '%02d%02d%02d' % (hh, mm, ss) + ('.' + fs if fs else '')
+    return '%02d%02d%02d.%06d' % (hh, mm, ss, int(frac * 1000000))
+
+
 def tag_value(tag, x):
     """value number x (a small non-negative dyadic) as the Python value stored under `tag`"""
     if tag in INT_TAGS:
@@ -160,7 +189,14 @@ def build_ds(spec):
 
 
 def _num(x):
-    """a Python number or fixed-format TM string as an exact Fraction; None stays None"""
+    """An ordinate / guess-key value as an exact Fraction; None stays None.
+    Numbers are themselves.  STRINGS (the extractor hands every TM element - AcquisitionTime, ContentTime - to the
+    sorter as the raw string, whatever its form: 'hh', 'hhmm', 'hhmmss', 'hhmmss.f..f', with colons) are compared
+    by the sorter as Python compares strings, so they are embedded injectively and monotonically for the
+    lexicographic order: character i contributes (ord + 1) / 257**(i+1)  (no digit is 0, so a proper prefix is
+    smaller).  Equality of the fractions is equality of the strings ('1200' and '120000' are different values
+    for the sorter, as in Python).  A key whose values mix strings and numbers (TypeError in Python) is outside
+    the modelled domain."""
     if x is None:
         return None
     if isinstance(x, bool):
@@ -171,9 +207,10 @@ def _num(x):
         if x != x or x in (float('inf'), float('-inf')):
             raise ValueError('non finite ordinate')
         return Fraction(x)
-    if isinstance(x, str) and re.fullmatch(r'\d{6}\.\d{6}', x):
-        # fixed width: string order/equality coincide with numeric order/equality
-        return Fraction(int(x[:6])) + Fraction(int(x[7:]), 1000000)
+    if isinstance(x, str):
+        if any(ord(c) > 255 for c in x):
+            raise ValueError('ordinate outside the modelled domain: %r' % (x,))
+        return sum((Fraction(ord(c) + 1, 257 ** (i + 1)) for i, c in enumerate(x)), Fraction(0))
     raise ValueError('ordinate outside the modelled domain: %r' % (x,))
 
 
@@ -185,16 +222,34 @@ def make_ordering(dcmstack, o):
     if o is None:
         return None
     if o.get('abs') is not None:
-        return dcmstack.DicomOrdering(o['key'], abs_ordering=list(o['abs']))
+        return dcmstack.DicomOrdering(o['key'], abs_ordering=list(o['abs']), abs_as_str=bool(o.get('as_str')))
     return o['key']
 
 
-def abstract_file(dcmstack, spec, ds, case):
-    """What the sorter sees of one data set, taken from nibabel's wrapper and the default extractor
-    (NOT from the stack): the input of the Coq model."""
-    from nibabel.nicom.dicomwrappers import wrapper_from_data
+def hand_meta(spec):
+    """the `meta` argument of add_dcm built by hand from the spec (cases with 'meta_arg'): what the sorter and the
+    conversion read, nothing else"""
+    m = {'Rows': spec['rows'], 'Columns': spec['cols'], 'PixelSpacing': list(spec['ps']),
+         'ImageOrientationPatient': list(spec['iop']), 'ImagePositionPatient': list(spec['ipp']),
+         'BitsStored': spec.get('bits', 12)}
+    m.update(spec.get('tags', {}))
+    return m
+
+
+def case_meta(spec, ds, case):
+    """the meta data dictionary add_dcm works with in this case"""
+    if case.get('meta_arg'):
+        return hand_meta(spec)
     from dcmstack.extract import default_extractor
-    meta = default_extractor(ds)
+    return default_extractor(ds)
+
+
+def abstract_file(dcmstack, spec, ds, case):
+    """What the sorter sees of one data set, taken from nibabel's wrapper and the default extractor (NOT from the
+    stack): the INPUT of the Coq model.  It is never the yardstick of an oracle: `spec_truth` is, and the oracles
+    carry the clause `abstraction == spec truth` (abstraction_diff)."""
+    from nibabel.nicom.dicomwrappers import wrapper_from_data
+    meta = case_meta(spec, ds, case)
     a = {'id': spec['id'], 'pix': bool(dcmstack.is_image(ds)),
          'rows': int(meta['Rows']), 'cols': int(meta['Columns']),
          'ps': [fr(Fraction(float(x))) for x in meta['PixelSpacing']],
@@ -209,12 +264,12 @@ def abstract_file(dcmstack, spec, ds, case):
             if isinstance(ordg, str):
                 ordg = dcmstack.DicomOrdering(ordg)
             try:
-                a[nm] = fr(_num(ordg.get_ordinate(meta)))
-            except ValueError as e:
-                if 'is not in list' not in str(e):
-                    raise
-                a[nm] = None
+                val = ordg.get_ordinate(meta)
+            except ValueError:
+                # abs_ordering.index(value) failed: classified by the exception class and the region only
+                val = None
                 a['bad_ordinate'] = True
+            a[nm] = fr(_num(val))
     a['meta'] = [[k, fr(_num(meta.get(k)))] for k in dcmstack.DicomStack.sort_guesses if meta.get(k) is not None]
     a['tr'] = fr(_num(meta.get('RepetitionTime')))
     a['phase'] = meta.get('InPlanePhaseEncodingDirection')
@@ -222,6 +277,55 @@ def abstract_file(dcmstack, spec, ds, case):
     a['bits'] = int(meta.get('BitsStored', 16))
     a['has_acq'] = meta.get('AcquisitionTime') is not None
     return a
+
+
+def spec_truth(spec, case):
+    """The same quantities from the GENERATOR's spec alone (no library call): the ground truth of the oracles."""
+    tags = dict((k, v) for k, v in spec.get('tags', {}).items() if v != '')    # an empty element has no value
+    iop = [Fraction(x) for x in spec['iop']]
+    n = normal_of(iop)
+    t = {'id': spec['id'], 'pix': bool(spec.get('pix', True)), 'rows': spec['rows'], 'cols': spec['cols'],
+         'ps': [fr(Fraction(x)) for x in spec['ps']], 'iop': [fr(x) for x in iop],
+         'pos': fr(sum(Fraction(a) * b for a, b in zip(spec['ipp'], n)))}
+    for nm, o in (('time', case.get('time_order')), ('vec', case.get('vector_order'))):
+        if o is None:
+            t[nm] = None
+            continue
+        val = tags.get(o['key'])
+        if val is not None and o.get('abs'):
+            if o.get('as_str'):
+                val = str(val)
+            if val in o['abs']:
+                val = list(o['abs']).index(val)
+            else:
+                val = None
+                t['bad_ordinate'] = True
+        t[nm] = fr(_num(val))
+    t['meta'] = [[k, fr(_num(tags[k]))] for k in GUESS_TAGS if tags.get(k) is not None]
+    t['tr'] = fr(_num(tags.get('RepetitionTime')))
+    t['phase'] = tags.get('InPlanePhaseEncodingDirection')
+    t['dtype'] = 0 if spec.get('pixrep', 0) else 1
+    t['bits'] = spec.get('bits', 12)
+    t['has_acq'] = tags.get('AcquisitionTime') is not None
+    return t
+
+
+def abstraction_diff(a, t):
+    """first field in which the library-derived abstraction differs from the spec truth (None: they agree); the
+    slice position is a float inner product on the library side, compared within 1e-9"""
+    for k in ('pix', 'rows', 'cols', 'ps', 'iop', 'time', 'vec', 'tr', 'phase', 'bits', 'has_acq'):
+        if a.get(k) != t.get(k):
+            return k
+    if bool(a.get('bad_ordinate')) != bool(t.get('bad_ordinate')):
+        return 'bad_ordinate'
+    if t['pix'] and a.get('dtype') != t.get('dtype'):
+        return 'dtype'
+    if sorted(map(tuple, ((k, tuple(v)) for k, v in a['meta']))) != sorted(map(tuple, ((k, tuple(v)) for k, v in t['meta']))):
+        return 'meta'
+    pa, pt = F(a['pos']), F(t['pos'])
+    if abs(pa - pt) > Fraction(1, 10 ** 9) * (1 + abs(pt)):
+        return 'pos'
+    return None
 
 
 DTYPES = {'int16': 0, 'uint16': 1, 'uint8': 2, 'int8': 3, 'int32': 4, 'uint32': 5, 'float32': 6, 'float64': 7}
@@ -233,7 +337,8 @@ def dtype_code(dt):
 
 def wants_flip(dcmstack, ds, vo):
     """Does `reorder_voxels` flip the slice axis for this orientation when the slice column points along
-    +slice_normal (files ascending in slice_indicator)?  None when no reorientation is requested."""
+    +slice_normal (files ascending in slice_indicator)?  None when no reorientation is requested.
+    (model INPUT, not an oracle yardstick)"""
     if not vo:
         return None
     import numpy as np
@@ -255,80 +360,33 @@ def axis_perm(dcmstack, ds, vo):
 
 
 # ------------------------------------------------------------------------------------------------
-# running a history on the real DicomStack
+# running a history on the real DicomStack: PUBLIC results only
 
-class Runner(object):
-    def __init__(self, dcmstack, case):
-        self.dcmstack = dcmstack
-        self.case = case
-        self.stack = dcmstack.DicomStack(time_order=make_ordering(dcmstack, case.get('time_order')),
-                                         vector_order=make_ordering(dcmstack, case.get('vector_order')))
-        self.wid = {}          # id(NiftiWrapper) -> file id
-        self.ds = {}
-        self.accepted = []
-        self.last = None
+def file_pixels(ds):
+    """the pixel values of a data set as nibabel's DicomWrapper decodes them (pydicom masks to BitsStored): the
+    wrapper is a contract, not the code under test"""
+    from nibabel.nicom.dicomwrappers import wrapper_from_data
+    return wrapper_from_data(ds).get_data()
 
-    def dataset(self, idx):
-        if idx not in self.ds:
-            self.ds[idx] = build_ds(self.case['files'][idx])
-        return self.ds[idx]
 
-    def state(self):
-        st = self.stack
-        return {'ids': [self.wid[id(fi[0])] for fi in st._files_info], 'dirty': bool(st._shape_dirty)}
+def err_code(dcmstack, e):
+    """exception -> result code: the documented classes by isinstance, anything else 'X:<class name>'"""
+    for cls, code in (('InvalidStackError', 'EInvalidStack'), ('IncongruentImageError', 'EIncongruent'),
+                      ('ImageCollisionError', 'ECollision'), ('NonImageDataSetError', 'ENonImage')):
+        c = getattr(dcmstack, cls, None)
+        if c is not None and isinstance(e, c):
+            return code
+    if isinstance(e, TypeError):
+        return 'EType'
+    return 'X:' + type(e).__name__
 
-    def header_obs(self, out, vo):
-        """pixdim[4] exactly (float32 -> Fraction) and the phase code of dim_info: 0 unset, 1 'ROW' (phase on
-        the axis the second array axis went to), 2 otherwise"""
-        hdr = self.last.header
-        out['pixdim4'] = fr(Fraction(float(hdr['pixdim'][4])))
-        freq, phase, _ = hdr.get_dim_info()
-        if phase is None:
-            out['phase'] = 0
-        else:
-            perm = axis_perm(self.dcmstack, self.dataset(self.accepted[0]), vo)
-            out['phase'] = 1 if int(phase) == perm[1] else 2
 
-    def apply(self, op):
-        st = self.stack
-        out = {'r': 'ok', 'shape': None, 'dtype': None, 'pixdim4': None, 'phase': None}
-        try:
-            if op[0] == 'add':
-                n0 = len(st._files_info)
-                st.add_dcm(self.dataset(op[1]))
-                assert len(st._files_info) == n0 + 1
-                self.wid[id(st._files_info[-1][0])] = self.case['files'][op[1]]['id']
-                self.accepted.append(op[1])
-            elif op[0] == 'shape':
-                out['shape'] = [int(x) for x in st.get_shape()]
-            elif op[0] == 'data':
-                arr = st.get_data()
-                out['shape'] = [int(x) for x in arr.shape]
-                out['dtype'] = dtype_code(arr.dtype)
-            elif op[0] == 'affine':
-                st.get_affine()
-            elif op[0] == 'nifti':
-                self.last = st.to_nifti(op[1], bool(op[2]))
-                out['dtype'] = dtype_code(self.last.get_data_dtype())
-                self.header_obs(out, op[1])
-            elif op[0] == 'wrapper':
-                self.last = st.to_nifti_wrapper(op[1]).nii_img
-                out['dtype'] = dtype_code(self.last.get_data_dtype())
-                self.header_obs(out, op[1])
-            else:
-                raise ValueError('unknown op %r' % (op,))
-        except Exception as e:
-            nm = type(e).__name__
-            if nm in ERRMAP:
-                out['r'] = ERRMAP[nm]
-            elif op[0] == 'add' and nm in ADD_ONLY_ERR:
-                out['r'] = ADD_ONLY_ERR[nm]
-            else:
-                # anything else is outside the model: recorded, so that the oracle can still compare histories
-                out['r'] = 'X:' + nm
-                out['msg'] = str(e)[:200]
-        out.update(self.state())
-        return out
+def sha(b):
+    import hashlib
+    return hashlib.sha1(b).hexdigest()[:16]
+
+
+PART_KEYS = ['data', 'dtype', 'shape', 'affine', 'pixdim4', 'dim_info', 'slice', 'units', 'ext', 'bytes']
 
 
 def nifti_parts(img):
@@ -355,25 +413,174 @@ def nifti_parts(img):
     }
 
 
+def value_of(kind, obj):
+    """a result BY VALUE as a dict of short digests (one per part)"""
+    import numpy as np
+    if kind == 'shape':
+        return {'shape': json.dumps([int(x) for x in obj])}
+    if kind == 'data':
+        a = np.ascontiguousarray(obj)
+        return {'data': sha(a.tobytes()), 'dtype': str(a.dtype), 'shape': json.dumps([int(x) for x in a.shape])}
+    if kind == 'affine':
+        return {'affine': sha(np.asarray(obj, dtype=np.float64).tobytes())}
+    p = nifti_parts(obj)
+    return dict((k, sha(json.dumps(p[k]).encode())) for k in PART_KEYS)
+
+
+class Runner(object):
+    """Drives one DicomStack through a history.  Nothing private is read: which files were accepted follows from
+    add_dcm raising or not, the order of the files in a result from the pixel values."""
+
+    def __init__(self, dcmstack, case):
+        self.dcmstack = dcmstack
+        self.case = case
+        self.stack = dcmstack.DicomStack(time_order=make_ordering(dcmstack, case.get('time_order')),
+                                         vector_order=make_ordering(dcmstack, case.get('vector_order')))
+        self.ds = {}
+        self.accepted = []       # indices into case['files'], since the last clear()
+        self.last = None
+        self.results = []        # [op index, kind, object, value at return time]
+        self.changed = []        # earlier results found changed later: [result op, kind, after op, parts]
+        self.nop = 0
+
+    def dataset(self, idx):
+        if idx not in self.ds:
+            self.ds[idx] = build_ds(self.case['files'][idx])
+        return self.ds[idx]
+
+    def file_order(self, arr, slice_axis):
+        """ids of the files whose pixels make up the voxel array, slice-major then time then vector; -1 where a
+        block matches no accepted file"""
+        import numpy as np
+        a = np.asarray(arr)
+        while a.ndim < 5:
+            a = a.reshape(a.shape + (1,))
+        a = np.moveaxis(a, slice_axis, 2)
+        table = {}
+        for i in self.accepted:
+            spec = self.case['files'][i]
+            table[tuple(sorted(file_pixels(self.dataset(i)).astype(a.dtype).ravel().tolist()))] = spec['id']
+        out = []
+        for v in range(a.shape[4]):
+            for t in range(a.shape[3]):
+                for s in range(a.shape[2]):
+                    out.append(table.get(tuple(sorted(a[:, :, s, t, v].ravel().tolist())), -1))
+        return out
+
+    def header_obs(self, out, vo):
+        """pixdim[4] exactly (float32 -> Fraction), the phase code of dim_info (0 unset, 1 'ROW' = phase on the axis
+        the second array axis went to, 2 otherwise) and the file order along the output's slice axis"""
+        hdr = self.last.header
+        out['pixdim4'] = fr(Fraction(float(hdr['pixdim'][4])))
+        perm = axis_perm(self.dcmstack, self.dataset(self.accepted[0]), vo)
+        freq, phase, _ = hdr.get_dim_info()
+        out['phase'] = 0 if phase is None else (1 if int(phase) == perm[1] else 2)
+        import numpy as np
+        out['order'] = self.file_order(np.asanyarray(self.last.dataobj), perm[2])
+
+    def keep(self, kind, obj):
+        self.results.append([self.nop, kind, obj, value_of(kind, obj)])
+
+    def recheck(self):
+        """every result returned earlier must still have the value it had when it was returned"""
+        for rec in self.results:
+            k, kind, obj, val = rec
+            now = value_of(kind, obj)
+            if now != val:
+                self.changed.append([k, kind, self.nop, sorted(p for p in val if val[p] != now[p])])
+                rec[3] = now
+
+    def apply(self, op):
+        st = self.stack
+        out = {'r': 'ok', 'shape': None, 'dtype': None, 'pixdim4': None, 'phase': None, 'order': None, 'val': None}
+        try:
+            if op[0] == 'add':
+                spec = self.case['files'][op[1]]
+                if self.case.get('meta_arg'):
+                    st.add_dcm(self.dataset(op[1]), hand_meta(spec))
+                else:
+                    st.add_dcm(self.dataset(op[1]))
+                self.accepted.append(op[1])
+            elif op[0] == 'clear':
+                st.clear()
+                self.accepted = []
+            elif op[0] == 'mutate':
+                self.mutate(op[1])
+            elif op[0] == 'shape':
+                sh = st.get_shape()
+                out['shape'] = [int(x) for x in sh]
+                out['val'] = value_of('shape', sh)
+            elif op[0] == 'data':
+                arr = st.get_data()
+                out['shape'] = [int(x) for x in arr.shape]
+                out['dtype'] = dtype_code(arr.dtype)
+                out['order'] = self.file_order(arr, 2)
+                out['val'] = value_of('data', arr)
+                self.keep('data', arr)
+            elif op[0] == 'affine':
+                aff = st.get_affine()
+                out['val'] = value_of('affine', aff)
+                self.keep('affine', aff)
+            elif op[0] in ('nifti', 'wrapper'):
+                if op[0] == 'nifti':
+                    self.last = st.to_nifti(op[1], bool(op[2]))
+                else:
+                    self.last = st.to_nifti_wrapper(op[1]).nii_img
+                out['dtype'] = dtype_code(self.last.get_data_dtype())
+                self.header_obs(out, op[1])
+                out['val'] = value_of('nifti', self.last)
+                self.keep('nifti', self.last)
+            else:
+                raise AssertionError('unknown op %r' % (op,))
+        except AssertionError:
+            raise
+        except Exception as e:
+            out['r'] = err_code(self.dcmstack, e)
+            if out['r'].startswith('X:'):
+                out['msg'] = str(e)[:200]
+        self.recheck()
+        self.nop += 1
+        return out
+
+    def mutate(self, what):
+        """the caller scribbles over the most recent result of kind `what` (it owns it)"""
+        import numpy as np
+        for rec in reversed(self.results):
+            k, kind, obj, val = rec
+            if kind != what:
+                continue
+            if kind == 'data':
+                obj[...] = 0
+            elif kind == 'affine':
+                obj[:3, :] = 7.0
+            else:
+                np.asanyarray(obj.dataobj)[...] = 0
+                for e in obj.header.extensions:
+                    if hasattr(e, 'get_class_dict'):
+                        e.get_class_dict(('global', 'const'))['ScribbledByCaller'] = 1
+                        e.reorient_transform = np.eye(4) * 3
+            rec[3] = value_of(kind, obj)      # the caller's own change is not held against the stack
+            return
+
+
 def run_history(dcmstack, case):
-    """-> observation: per-file abstraction, per-op result, want-flip flags of the voxel orders used"""
+    """-> (runner, observation): per-file abstraction (model input), per-op public results, want-flip flags"""
     r = Runner(dcmstack, case)
     absf = []
     for i, spec in enumerate(case['files']):
         absf.append(abstract_file(dcmstack, spec, r.dataset(i), case))
-    ops = [r.apply(op) for op in case['ops']]
+    ops = []
     vos = {}
-    if r.accepted:
-        ref = r.dataset(r.accepted[0])          # the stack's reference input: its affine is known to be computable
-        for op in case['ops']:
-            if op[0] in ('nifti', 'wrapper') and op[1] not in vos:
-                vos[op[1]] = wants_flip(dcmstack, ref, op[1])
-    else:
-        for op in case['ops']:
-            if op[0] in ('nifti', 'wrapper'):
-                vos[op[1]] = None if not op[1] else False
+    for op in case['ops']:
+        ops.append(r.apply(op))
+        if op[0] in ('nifti', 'wrapper') and (op[1] or '') not in vos and r.accepted:
+            # the stack's reference input: its affine is known to be computable
+            vos[op[1] or ''] = wants_flip(dcmstack, r.dataset(r.accepted[0]), op[1])
+    for op in case['ops']:
+        if op[0] in ('nifti', 'wrapper') and (op[1] or '') not in vos:
+            vos[op[1] or ''] = None if not op[1] else False
     return r, {'files': absf, 'ops': ops, 'vo': vos, 'guesses': list(dcmstack.DicomStack.sort_guesses),
-               'accepted': list(r.accepted)}
+               'accepted': list(r.accepted), 'changed': r.changed}
 
 
 # ------------------------------------------------------------------------------------------------
@@ -397,7 +604,7 @@ def coq_file(a):
 
 
 def coq_vo(obs, vo):
-    w = obs['vo'].get(vo)
+    w = obs['vo'].get(vo or '')
     return 'None' if w is None else '(Some %s)' % cbool(w)
 
 
@@ -417,18 +624,44 @@ def coq_op(case, obs, op):
     raise ValueError(op)
 
 
+MODEL_ERRS = ('EInvalidStack', 'EIncongruent', 'ECollision', 'ENonImage', 'EType')
+
+
 def coq_obs(o):
-    """(result class, shape, dtype code, pixdim[4], phase code, file ids after the call, dirty flag after the call)"""
-    r = 'None' if o['r'] == 'ok' else '(Some %s)' % (o['r'] if not o['r'].startswith('X:') else 'ECrash')
+    """(exception class, shape, dtype code, pixdim[4], phase code, file order of the returned voxels)"""
+    r = 'None' if o['r'] == 'ok' else '(Some %s)' % (o['r'] if o['r'] in MODEL_ERRS else 'ECrash')
     sh = copt(o['shape'], lambda s: clist(cnat(x) for x in s))
-    return '(%s, %s, %s, %s, %s, %s, %s)' % (r, sh, copt(o.get('dtype'), cnat), copt(o.get('pixdim4'), cQ),
-                                             copt(o.get('phase'), cnat), clist(cnat(i) for i in o['ids']), cbool(o['dirty']))
+    order = o.get('order')
+    if order is not None and any(x < 0 for x in order):
+        order = [99999 if x < 0 else x for x in order]       # a block of voxels that is no accepted file's
+    return '(%s, %s, %s, %s, %s, %s)' % (r, sh, copt(o.get('dtype'), cnat), copt(o.get('pixdim4'), cQ),
+                                         copt(o.get('phase'), cnat), copt(order, lambda l: clist(cnat(x) for x in l)))
+
+
+def model_ops(case, obs):
+    """The history the model is run on: what follows the last clear() (clear = a new stack); a caller scribbling on
+    a result it owns is no operation of the stack; an add whose ordinate cannot be evaluated (value not in
+    abs_ordering) and that was refused has no counterpart in the model (ordinates are given evaluated): that it
+    leaves the stack unchanged is what the later observations check."""
+    pairs = list(zip(case['ops'], obs['ops']))
+    for k in range(len(pairs) - 1, -1, -1):
+        if pairs[k][0][0] == 'clear':
+            pairs = pairs[k + 1:]
+            break
+    keep = []
+    for op, o in pairs:
+        if op[0] == 'mutate':
+            continue
+        if op[0] == 'add' and o['r'] != 'ok' and obs['files'][op[1]].get('bad_ordinate'):
+            continue
+        keep.append((op, o))
+    return keep
 
 
 def coq_case(case, obs):
     if not isinstance(obs, dict) or 'crash' in obs or 'ops' not in obs:
-        return '(mkcase false false [] [(None, None, None, None, None, [0%nat], false)])'      # never matches: flags the crash
-    keep = [(op, o) for op, o in zip(case['ops'], obs['ops']) if not (op[0] == 'add' and o['r'] == 'EValue')]
+        return '(mkcase false false [] [(None, None, None, None, None, None)])'      # never matches: flags the crash
+    keep = model_ops(case, obs)
     return '(mkcase %s %s %s %s)' % (
         cbool(case.get('time_order') is not None), cbool(case.get('vector_order') is not None),
         clist(coq_op(case, obs, op) for op, o in keep),
@@ -436,7 +669,7 @@ def coq_case(case, obs):
 
 
 # ------------------------------------------------------------------------------------------------
-# the specification, directly in Python (oracle side; independent of the Coq model)
+# the specification, directly in Python (oracle side; independent of the Coq model AND of the library)
 
 SPACING_RTOL = Fraction(4, 100)       # the value the SPEC fixes (Lemma spacing_tol)
 NP_ATOL = Fraction(1, 10 ** 8)
@@ -461,9 +694,11 @@ def okey(x):
     return (0, 0) if x is None else (1, x)
 
 
-def arranged(tuples):
+def arranged(tuples, ids=None):
     """tuples: list of (vec, time, pos).  The grid dimensions (S, T, V) when the multiset tiles a
-    complete grid, else None.  Direct transcription of Spec.grid_ok."""
+    complete grid, else None.  Direct transcription of Spec.grid_ok.  With `ids` the result is
+    (S, T, V, order): the ids in the order the property demands - volumes by (vector, time), inside a volume by
+    ascending slice position."""
     n = len(tuples)
     if n == 0:
         return None
@@ -478,37 +713,44 @@ def arranged(tuples):
     if n % (S * V) != 0:
         return None
     T = n // (S * V)
-    l = sorted(tuples, key=lambda t: (okey(t[0]), okey(t[1]), t[2]))
+    idx = sorted(range(n), key=lambda i: (okey(tuples[i][0]), okey(tuples[i][1]), tuples[i][2]))
+    l = [tuples[i] for i in idx]
+    order = []
     for vi in range(V):
         block = l[vi * T * S:(vi + 1) * T * S]
         if len(set(t[0] for t in block)) != 1:
             return None
         for ti in range(T):
-            vol = block[ti * S:(ti + 1) * S]
+            lo = vi * T * S + ti * S
+            vol = l[lo:lo + S]
             if sorted(t[2] for t in vol) != P:
                 return None
-    return (S, T, V)
+            order += sorted(idx[lo:lo + S], key=lambda i: tuples[i][2])
+    if ids is None:
+        return (S, T, V)
+    return (S, T, V, [ids[i] for i in order])
 
 
 def mixed(vals):
     return any(v is None for v in vals) and any(v is not None for v in vals)
 
 
-def grid_complete(files, cfg_time, cfg_vec, guesses):
-    """files: abstractions of the ACCEPTED files.  -> (S,T,V) or None; 'mixed' when None and numbers
-    are mixed in an explicit ordinate (outside the property's stated conditions)."""
+def grid_complete(files, cfg_time, cfg_vec, guesses, with_order=False):
+    """files: ground truth (spec_truth) of the ACCEPTED files.  -> (S,T,V[,order]) or None; 'mixed' when None and
+    numbers are mixed in an explicit ordinate (a file without a cell: nothing may convert)."""
     if not files:
         return None
     vec = [F(f['vec']) if cfg_vec else None for f in files]
     tim = [F(f['time']) if cfg_time else None for f in files]
     pos = [F(f['pos']) for f in files]
+    ids = [f['id'] for f in files] if with_order else None
     if mixed(vec) or mixed(tim):
         return 'mixed'
     n = len(files)
     S = len(set(pos))
     explicit = cfg_time or cfg_vec
     if explicit or n <= S or n % S != 0:
-        return arranged(list(zip(vec, tim, pos)))
+        return arranged(list(zip(vec, tim, pos)), ids)
     nvol = n // S
     for key in guesses:
         vals = [dict((k, F(v)) for k, v in f['meta']).get(key) for f in files]
@@ -516,7 +758,7 @@ def grid_complete(files, cfg_time, cfg_vec, guesses):
             continue
         if len(set(vals)) not in (nvol, n):
             continue
-        g = arranged(list(zip(vec, vals, pos)))
+        g = arranged(list(zip(vec, vals, pos)), ids)
         if g is not None:
             return g
     return None
@@ -526,36 +768,42 @@ def close(a, b, atol):
     return abs(a - b) <= atol + NP_RTOL * abs(b)
 
 
+def expected_add_one(f, ref, cells, cfg_time, cfg_vec):
+    """Expected result of adding the file with ground truth `f` to a stack whose reference (first accepted) file is
+    `ref` and whose occupied cells are `cells`: 'ok', one of the documented classes, or 'refused' (any exception:
+    the ordinate cannot be evaluated)."""
+    if not f['pix']:
+        return 'ENonImage'
+    if ref is not None:
+        ok = (f['rows'] == ref['rows'] and f['cols'] == ref['cols'] and
+              all(close(F(a), F(b), CONGRUENT_ATOL) for a, b in zip(f['ps'], ref['ps'])) and
+              all(close(F(a), F(b), CONGRUENT_ATOL) for a, b in zip(f['iop'], ref['iop'])))
+        if not ok:
+            return 'EIncongruent'
+    if f.get('bad_ordinate'):
+        return 'refused'
+    if (cfg_time or cfg_vec) and cell_of(f, cfg_time, cfg_vec) in cells:
+        return 'ECollision'
+    return 'ok'
+
+
+def cell_of(f, cfg_time, cfg_vec):
+    return (F(f['vec']) if cfg_vec else None, F(f['time']) if cfg_time else None, F(f['pos']))
+
+
 def expected_add(files, order, cfg_time, cfg_vec):
-    """Expected result class of each add (in `order`, indices into files) per the property text:
-    pixel-less -> ENonImage; size / spacing / orientation differing from the first accepted file ->
-    EIncongruent; explicit ordering and occupied cell -> ECollision."""
+    """Expected result of each add (in `order`, indices into the ground truths `files`) on a fresh stack."""
     ref = None
     cells = set()
     out = []
     for i in order:
         f = files[i]
-        if not f['pix']:
-            out.append('ENonImage')
-            continue
-        if ref is not None:
-            ok = (f['rows'] == ref['rows'] and f['cols'] == ref['cols'] and
-                  all(close(F(a), F(b), CONGRUENT_ATOL) for a, b in zip(f['ps'], ref['ps'])) and
-                  all(close(F(a), F(b), CONGRUENT_ATOL) for a, b in zip(f['iop'], ref['iop'])))
-            if not ok:
-                out.append('EIncongruent')
-                continue
-        if f.get('bad_ordinate'):
-            out.append('EValue')
-            continue
-        cell = (F(f['vec']) if cfg_vec else None, F(f['time']) if cfg_time else None, F(f['pos']))
-        if (cfg_time or cfg_vec) and cell in cells:
-            out.append('ECollision')
-            continue
-        cells.add(cell)
-        if ref is None:
-            ref = f
-        out.append('ok')
+        e = expected_add_one(f, ref, cells, cfg_time, cfg_vec)
+        out.append(e)
+        if e == 'ok':
+            cells.add(cell_of(f, cfg_time, cfg_vec))
+            if ref is None:
+                ref = f
     return out
 
 
@@ -599,6 +847,9 @@ def rand_config(rng, tier, want=None, force_abs=False):
                               for t in range(T) for v in range(V)))
             rng.shuffle(vals)
             cfg['time_order'] = {'key': key, 'abs': vals}
+            if rng.random() < 0.3:
+                # abs_as_str: the values are looked up as strings
+                cfg['time_order'] = {'key': key, 'abs': [str(v) for v in vals], 'as_str': True}
     if mode in ('vec', 'timevec'):
         key = rng.choice([k for k in VEC_TAGS if k not in rules])
         rules[key] = 'v'
@@ -801,7 +1052,7 @@ def apply_defect(rng, cfg, files, defect):
             pb = [f for f in files if f['cell'] == [i, tb, v]][0]['ipp']
             fa['ipp'], fb['ipp'] = list(pa), list(pb)
             for f in (fa, fb):
-                f['tags'][tkey] = tag_value(tkey, _num(f['tags'][tkey]) - (36000 if tkey in TM_TAGS else 0) + 1)
+                f['tags'][tkey] = tag_value(tkey, (tm_seconds(f['tags'][tkey]) - 36000 if tkey in TM_TAGS else _num(f['tags'][tkey])) + 1)
             note.update({'i': i, 'j': j})
     elif defect in ('vec_straddle', 'vec_move'):
         # files MOVED between vector components: the total still factors and every slice position still occurs
@@ -866,6 +1117,14 @@ def vary_attrs(rng, cfg, files):
     """Per-file attributes that add_dcm does not compare but the conversion reads from ONE file of the sorted
     list (dtype, BitsStored, AcquisitionTime presence): make them non-uniform."""
     modes = [m for m in ('bits', 'pixrep', 'pxhi', 'acq') if rng.random() < 0.45]
+    if rng.random() < 0.2:
+        # other valid TM forms (the sorter sees the raw string): one style for the case, or a different one per file
+        style = rng.choice(['trim', 'colon', 'mixed'])
+        modes.append('tm-' + style)
+        for f in files:
+            for k in TM_TAGS:
+                if isinstance(f['tags'].get(k), str):
+                    f['tags'][k] = tm_restyle(f['tags'][k], rng.choice(['trim', 'colon', 'full']) if style == 'mixed' else style)
     S = cfg['S']
     asc = cfg['direction'] == 1
     for f in files:
@@ -943,15 +1202,39 @@ def case_header(cfg):
     return {'time_order': cfg['time_order'], 'vector_order': cfg['vector_order']}
 
 
+def case_valid(case):
+    """A file whose orientation was perturbed above tolerance ('notfirst') must meet a reference file when it is
+    added (it is then refused as incongruent); as the stack's first accepted file it would not survive nibabel's own
+    orthogonality test (WrapperPrecisionError), which is outside the property."""
+    ct, cv = case.get('time_order') is not None, case.get('vector_order') is not None
+    truth = [spec_truth(f, case) for f in case['files']]
+    ref, cells = None, set()
+    for op in case['ops']:
+        if op[0] == 'clear':
+            ref, cells = None, set()
+        if op[0] != 'add':
+            continue
+        f = truth[op[1]]
+        if case['files'][op[1]].get('notfirst') and ref is None and f['pix']:
+            return False
+        if expected_add_one(f, ref, cells, ct, cv) == 'ok':
+            cells.add(cell_of(f, ct, cv))
+            if ref is None:
+                ref = f
+    return True
+
+
 def shrink_files(case):
-    """candidate cases with one file (and its add) removed, or one non-final query removed"""
+    """candidate cases (inside the valid domain) with one file and its adds removed, or one non-final operation
+    that is not an add removed"""
     import copy
     ops = case['ops']
     for k in range(len(ops) - 1):
         if ops[k][0] != 'add':
             c = copy.deepcopy(case)
             del c['ops'][k]
-            yield c
+            if case_valid(c):
+                yield c
     nfiles = len(case['files'])
     if nfiles > 1:
         for i in range(nfiles):
@@ -968,4 +1251,5 @@ def shrink_files(case):
                 else:
                     nops.append(op)
             c['ops'] = nops
-            yield c
+            if case_valid(c):
+                yield c
